@@ -30,4 +30,32 @@ PROPS = {
         not_decided=["for all interleavings / OS schedules (Kani has no threads; Verus would need the code rewritten with permission types)",
                      "that rayon executes exactly the (src band, dst band) tasks the split returns", "Send/Sync promise of UnsafeImageMut"],
     ),
+    "C11": dict(
+        units=["G7"],
+        level="proof",
+        level_text="The source column/row chosen for a destination pixel is a postcondition of the index computation, discharged "
+                   "for every accepted f64 crop box and every u32 size by loop-free Kani harnesses on the verbatim slice; the "
+                   "bit-exact copy is checked on the whole real function at small sizes (bounded, labelled).",
+        level_note="Trusted: Kani/CBMC float model, the slice recipe (closure applied pointwise by std iterators).",
+        not_decided=[],
+    ),
+    "C17": dict(
+        units=["M1"],
+        level="proof",
+        level_text="Each clause (endpoints, monotone, saturating, lossless widening) is a postcondition of the 12 real conversion "
+                   "functions, discharged by loop-free Kani harnesses over the full input domain (relational harnesses with two "
+                   "symbolic inputs for monotonicity).",
+        level_note="Trusted: Kani/CBMC incl. its IEEE-754 f32 model; the image-level loop (M2) is checked bounded.",
+        not_decided=[],
+    ),
+    "C14": dict(
+        units=["G5a", "G4"],
+        level="proof",
+        level_text="The size arithmetic of the four default split bodies (None-condition, count, order, sizes differing by at most one, "
+                   "exact cover, every sub-rectangle accepted so no unwrap fires) is proved by Verus for ALL u32 arguments on a "
+                   "statement slice. Pixel identity of the returned parts (by address, hence no aliasing) is checked on the real "
+                   "containers by bounded Kani harnesses and reported separately.",
+        level_note="Trusted: Verus/Z3, Kani/CBMC, the weaver; slice substitutions are listed in the evidence (callee -> contract stand-in).",
+        not_decided=["pixel identity by address for views larger than the bounded harnesses (concrete sizes <= 5 px per side)"],
+    ),
 }
